@@ -80,6 +80,16 @@ var entries = []entry{
 	{"nexus.VLANAllocator.Allocate", "pkg/nexus/vlan.go", "VLANAllocator", "Allocate"},
 	{"nexus.VLANAllocator.AllocateWithSTag", "pkg/nexus/vlan.go", "VLANAllocator", "AllocateWithSTag"},
 	{"nexus.VLANAllocator.Release", "pkg/nexus/vlan.go", "VLANAllocator", "Release"},
+	// C20: state.Store (primary tables and their secondary indexes)
+	{"state.Store.CreateSubscriber", "pkg/state/store.go", "Store", "CreateSubscriber"},
+	{"state.Store.UpdateSubscriber", "pkg/state/store.go", "Store", "UpdateSubscriber"},
+	{"state.Store.DeleteSubscriber", "pkg/state/store.go", "Store", "DeleteSubscriber"},
+	{"state.Store.CreateLease", "pkg/state/store.go", "Store", "CreateLease"},
+	{"state.Store.DeleteLease", "pkg/state/store.go", "Store", "DeleteLease"},
+	{"state.Store.CreateSession", "pkg/state/store.go", "Store", "CreateSession"},
+	{"state.Store.DeleteSession", "pkg/state/store.go", "Store", "DeleteSession"},
+	{"state.Store.CreateNATBinding", "pkg/state/store.go", "Store", "CreateNATBinding"},
+	{"state.Store.DeleteNATBinding", "pkg/state/store.go", "Store", "DeleteNATBinding"},
 	// C13: HA session store and push
 	{"ha.InMemorySessionStore.PutSession", "pkg/ha/store.go", "InMemorySessionStore", "PutSession"},
 	{"ha.InMemorySessionStore.DeleteSession", "pkg/ha/store.go", "InMemorySessionStore", "DeleteSession"},
